@@ -7,7 +7,7 @@ Expected(ev, q) == LET E == {<<ev.edges[i][1] + 1, ev.edges[i][2] + 1>> : i \in 
 Problems(ev) ==
     (IF \A i \in DOMAIN ev.queries : ev.answers[i] = Expected(ev, ev.queries[i]) THEN {} ELSE {"equivalence query disagrees with the connection graph"})
     \cup (IF ev.kind = "collision" /\ ~ev.placed THEN {"harness: could not place the variables at the chosen addresses"} ELSE {})
-    \cup (IF ev.kind = "collision" /\ ~Collide(ev.limbs) THEN {"harness: the address quadruple does not collide under Key64"} ELSE {})
+    \cup (IF ev.kind = "collision" /\ ev.fam = "cantor" /\ ~Collide(ev.limbs) THEN {"harness: the address quadruple does not collide under Key64"} ELSE {})
 Next == /\ l <= Len(TraceLog) /\ l' = l + 1
         /\ LET ev == TraceLog[l] IN
            IF ev.e = "Reset" THEN TRUE
